@@ -317,6 +317,35 @@ def r13p_clone_from(body, log):
     return body
 
 
+def r17_get_mut(body, log):
+    """R17: `if let Some(x) = M.get_mut(K) { BODY }` -> read a copy with `get`, run BODY on the copy, write it
+    back with `insert` at the end of BODY and before every `return` inside it.  Sound for value types that
+    are plain data (the unit's projected structs are Copy): `get_mut` + field writes == get + insert."""
+    n = 0
+    while True:
+        mb = mask(body)
+        m = re.search(r'if let Some\((\w+)\) = ([\w.]+)\.get_mut\(([^()]*)\) \{', mb)
+        if not m:
+            break
+        name, mp, key = m.group(1), m.group(2), body[m.start(3):m.end(3)].strip()
+        o = m.end() - 1
+        c = match_close(mb, o)
+        inner = body[o + 1:c]
+        keyc = key[1:].strip() + '.clone()' if key.startswith('&') else '(*' + key + ').clone()'
+        wb = f"{mp}.insert({keyc}, {name});"
+        # write back before each return inside the block
+        inner2 = re.sub(r'(?m)^([ \t]*)return ([^;]*);', lambda r: f"{r.group(1)}{wb}\n{r.group(1)}return {r.group(2)};", inner)
+        tail_has_return = re.search(r'return [^;]*;\s*$', inner2) is not None
+        indent = re.match(r'[ \t]*', body[body.rfind('\n', 0, m.start()) + 1:]).group(0)
+        new = (f"if let Some(__g_{name}) = {mp}.get({key}) {{\n{indent}    let mut {name} = *__g_{name};" + inner2.rstrip()
+               + ('' if tail_has_return else f"\n{indent}    {wb}") + f"\n{indent}}}")
+        body = body[:m.start()] + new + body[c + 1:]
+        n += 1
+    if n:
+        log.append(f"R17 `if let Some(x) = M.get_mut(k) {{..}}` -> get + local copy + insert write-back ({n}x)")
+    return body
+
+
 def r18_vec_set(body, log):
     pat = re.compile(r'(?m)^([ \t]*)(' + PATH + r')\[([^\]\n]+)\] = ([^;\n]+);')
     n = len(pat.findall(body))
@@ -523,6 +552,8 @@ def extract_fn(repo, fnspec):
         body = r15_io_error_guards(body, log)
     if 'R13p' in rules:
         body = r13p_clone_from(body, log)
+    if 'R17' in rules:
+        body = r17_get_mut(body, log)
     if 'R18' in rules:
         body = r18_vec_set(body, log)
     for d in fnspec.get('directives', []):
